@@ -60,9 +60,13 @@ def main():
             ev = VERIF / "evidence" / f"{p}.json"
             saved = ev.read_bytes() if ev.exists() else None
             r = sh([str(VERIF / "check"), p, "--tier", tier], env=env, cwd=str(VERIF), timeout=7200)
-            lines = [l for l in r.stdout.split("\n") if l.startswith("VIOLATION") or l.startswith("KNOWN-FINDING")]
-            print(f"{seed_dir.name} {p} exit={r.returncode} {lines[0] if lines else 'quiet'}"
-                  + (f" (+{len(lines) - 1} more)" if len(lines) > 1 else ""))
+            viol = [l for l in r.stdout.split("\n") if l.startswith("VIOLATION")]
+            known = [l for l in r.stdout.split("\n") if l.startswith("KNOWN-FINDING")]
+            concrete = [l for l in viol if not l.rstrip().endswith("no-failing-input-found")]
+            first = (concrete or viol or ["quiet"])[0]
+            print(f"{seed_dir.name} {p} exit={r.returncode} {first}"
+                  + (f" [{len(viol)} VIOLATION lines, {len(concrete)} with a concrete replay; {len(known)} known]" if viol else
+                     (f" [{len(known)} known findings only]" if known else "")))
             if r.returncode == 2:
                 print("   tool failure:", (r.stderr or r.stdout).strip()[-400:])
             if saved is not None:
